@@ -1,7 +1,7 @@
 (* ApiRun.v — history driver extended with the gRPC handlers of Model/Api.v.  The top-level
    operation lines are those of BrokerRun.v plus:
 
-    20 V1GET   p view path                              -> [code n] then one line per entry
+    20 V1GET   p view path [mask]                       -> [code n] then one line per entry   (mask: explicit fields, 1 Value 2 ActuatorTarget 4 Metadata 8 data type 16 entry type 32 value restriction 64 unit+description)
     21 V1SET   p n (pathflag [path] fields vflag [value] tflag [value])*   -> [status] | [0 nerr (k code)*]
     22 V2GET   p sig                                    -> [status] | [0 value ts]
     23 V2GETS  p n sig*                                 -> [status] | [0 n (value ts)*]
@@ -14,7 +14,7 @@
     30 SDVUPD  p n (id vflag [value])*                  -> [0 nerr (id code)*]
     31 SDVREG  p n (name dtype ctype)*                  -> [status] | [0 n (name id)*]
     32 SDVMETA p n name*                                -> [0 n] then one line per signal
-    33 V1SUB   p mask path                              -> [0 handle] | [1 status]   mask: 1 Value 2 ActuatorTarget 4 MetadataUnit
+    33 V1SUB   p n (mask path)*                         -> [0 handle] | [1 status]   mask: 1 Value 2 ActuatorTarget 4 MetadataUnit
     34 V2SUB   p buf n sig*                             -> [0 handle] | [1 status]   (Subscribe: paths; SubscribeById: ids)
    The handle of a handler subscription is a handle of the core (operations RECV / DROP of BrokerRun.v).
     60 SPROV   p n sig*                                 -> [0 handle] | [1 status]   (OpenProviderStream: ProvideActuationRequest)
@@ -28,7 +28,7 @@ From KD Require Import Model.Values Model.Compare Model.Validate Model.Perm Mode
 Open Scope Z_scope.
 
 Inductive api_op :=
-| V1Get (p : Z) (view : Z) (path : list Z)
+| V1Get (p : Z) (view : Z) (path : list Z) (mask : Z)
 | V1Set (p : Z) (l : list v1_update)
 | V2Get (p : Z) (s : sig_ref)
 | V2Gets (p : Z) (l : list sig_ref)
@@ -41,7 +41,7 @@ Inductive api_op :=
 | SdvUpd (p : Z) (l : list (Z * option value))
 | SdvReg (p : Z) (l : list (list Z * Z * Z))
 | SdvMeta (p : Z) (names : list (list Z))
-| V1Sub (p : Z) (mask : Z) (path : list Z)
+| V1Sub (p : Z) (l : list (list Z * fields))
 | V2Sub (p : Z) (buf : Z) (l : list sig_ref)
 | SProv (p : Z) (l : list sig_ref)
 | SPub (p : Z) (h : Z) (l : list (Z * option value)).
@@ -167,9 +167,28 @@ Fixpoint dec_regs (n : nat) (ts : list Z) : option (list (list Z * Z * Z)) :=
             end
   end.
 
+Fixpoint dec_sub_entries (n : nat) (ts : list Z) : option (list (list Z * fields)) :=
+  match n with
+  | O => match ts with [] => Some [] | _ => None end
+  | S n' => match ts with
+            | mask :: r => match dec_str r with
+                           | Some (s, r') => match dec_sub_entries n' r' with
+                                             | Some l => Some ((s, fields_of_mask mask) :: l)
+                                             | None => None
+                                             end
+                           | None => None
+                           end
+            | [] => None
+            end
+  end.
+
 Definition decode_api (l : list Z) : option api_op :=
   match l with
-  | 20 :: p :: view :: r => match dec_str r with Some (s, []) => Some (V1Get p view s) | _ => None end
+  | 20 :: p :: view :: r => match dec_str r with
+                            | Some (s, []) => Some (V1Get p view s 0)
+                            | Some (s, [m]) => Some (V1Get p view s m)
+                            | _ => None
+                            end
   | 21 :: p :: n :: r => option_map (V1Set p) (dec_v1_updates (Z.to_nat n) r)
   | 22 :: p :: r => match dec_sig r with Some (s, []) => Some (V2Get p s) | _ => None end
   | 23 :: p :: n :: r => option_map (V2Gets p) (dec_sigs (Z.to_nat n) r)
@@ -194,7 +213,7 @@ Definition decode_api (l : list Z) : option api_op :=
   | 30 :: p :: n :: r => option_map (SdvUpd p) (dec_id_values (Z.to_nat n) r)
   | 31 :: p :: n :: r => option_map (SdvReg p) (dec_regs (Z.to_nat n) r)
   | 32 :: p :: n :: r => option_map (SdvMeta p) (dec_names (Z.to_nat n) r)
-  | 33 :: p :: mask :: r => match dec_str r with Some (s, []) => Some (V1Sub p mask s) | _ => None end
+  | 33 :: p :: n :: r => option_map (V1Sub p) (dec_sub_entries (Z.to_nat n) r)
   | 34 :: p :: buf :: n :: r => option_map (V2Sub p buf) (dec_sigs (Z.to_nat n) r)
   | 60 :: p :: n :: r => option_map (SProv p) (dec_sigs (Z.to_nat n) r)
   | 61 :: p :: h :: n :: r => option_map (SPub p h) (dec_id_values (Z.to_nat n) r)
@@ -204,7 +223,7 @@ Definition decode_api (l : list Z) : option api_op :=
 (* ---------- handlers: reply and the core operations issued ---------- *)
 Definition api_run (st : state) (a : api_op) : state * reply :=
   match a with
-  | V1Get p view path => (st, v1_get st (get_perm st p) path view)
+  | V1Get p view path mask => (st, v1_get_fields st (get_perm st p) path view mask)
   | V1Set p l => v1_set st (get_perm st p) l
   | V2Get p s => (st, v2_get_value st (get_perm st p) s)
   | V2Gets p l => (st, v2_get_values st (get_perm st p) l)
@@ -217,8 +236,8 @@ Definition api_run (st : state) (a : api_op) : state * reply :=
   | SdvUpd p l => sdv_update st (get_perm st p) l
   | SdvReg p l => sdv_register st (get_perm st p) l
   | SdvMeta _ names => (st, sdv_get_metadata st names)
-  | V1Sub p mask path =>
-    let '(st', r) := v1_subscribe st (get_perm st p) path (fields_of_mask mask) in
+  | V1Sub p l =>
+    let '(st', r) := v1_subscribe_multi st (get_perm st p) l in
     (st', RStatus (match r with inl _ => OK | inr c => c end))
   | V2Sub p buf l =>
     let '(st', r) := v2_subscribe st (get_perm st p) l buf in
@@ -268,10 +287,13 @@ Definition api_core (st : state) (a : api_op) : list aop :=
   | SdvSet p l => [AUpdate p (fst (sdv_set_resolve (st_db st) l [] [] 0))]
   | SdvUpd p l => [AUpdate p (map (fun '(id, w) => (id, dp_upd (from_wire w))) l)]
   | SdvReg p l => sdv_reg_core (st_db st) (get_perm st p) (st_now st) (st_clock st) p l
-  | V1Sub p mask path => match v1_sub_entries st (get_perm st p) path (fields_of_mask mask) with
-                         | inl es => [ASub p es None]
-                         | inr _ => []
-                         end
+  | V1Sub p l => match l with
+                 | [] => []
+                 | _ => match v1_sub_all st (get_perm st p) l [] with
+                        | inl es => [ASub p es None]
+                        | inr _ => []
+                        end
+                 end
   | V2Sub p buf l => match v2_sub_entries (st_db st) l with
                      | inl es => [ASub p es (Some buf)]
                      | inr _ => []
@@ -395,6 +417,25 @@ Definition enc_entry_v1 (x : entry * bool * bool * bool * bool) : list Z :=
               ++ enc_restriction_v1 (e_meta e)
       else [0]).
 
+(* Get with single metadata fields named (mask bits: 4 Metadata = all, 8 data type, 16 entry type, 32 value
+   restriction, 64 unit / description): the Metadata message is present as soon as any is named and carries
+   the named parts only (the others keep their proto defaults) *)
+Definition enc_entry_v1_parts (view mask : Z) (x : entry * bool * bool * bool * bool) : list Z :=
+  let '(e, hv, ht, hm, readable) := x in
+  let all := Z.testbit mask 2 || view_meta view in
+  let pd := all || Z.testbit mask 3 in
+  let pe := all || Z.testbit mask 4 in
+  let pr := all || Z.testbit mask 5 in
+  let present := pd || pe || pr || Z.testbit mask 6 in
+  [203; m_id (e_meta e)]
+  ++ (if hv && readable then enc_v1_dp (e_dp e) else [0])
+  ++ (if ht && readable then match e_target e with Some d => enc_v1_dp d | None => [0] end else [0])
+  ++ (if present
+      then [1; (if pd then kuksa_data_type (m_dtype (e_meta e)) else 0);
+               (if pe then kuksa_entry_type (m_etype (e_meta e)) else 0)]
+           ++ (if pr then enc_restriction_v1 (e_meta e) else [0])
+      else [0]).
+
 Fixpoint insert_by {A} (key : A -> Z) (x : A) (l : list A) : list A :=
   match l with
   | [] => [x]
@@ -435,8 +476,14 @@ Definition enc_reply_sdv_meta (r : reply) : list (list Z) :=
 Definition api_out (st : state) (a : api_op) : list (list Z) :=
   match a with
   | SdvMeta _ _ => enc_reply_sdv_meta (snd (api_run st a))
-  | V1Sub p mask path =>
-    [match snd (v1_subscribe st (get_perm st p) path (fields_of_mask mask)) with inl h => [0; h] | inr c => [1; c] end]
+  | V1Get _ view _ mask =>
+    match snd (api_run st a) with
+    | REntries c l => [c; Z.of_nat (length l)]
+                      :: map (enc_entry_v1_parts view mask) (sort_by (fun x => m_id (e_meta (fst (fst (fst (fst x)))))) l)
+    | r => enc_reply r
+    end
+  | V1Sub p l =>
+    [match snd (v1_subscribe_multi st (get_perm st p) l) with inl h => [0; h] | inr c => [1; c] end]
   | V2Sub p buf l =>
     [match snd (v2_subscribe st (get_perm st p) l buf) with inl h => [0; h] | inr c => [1; c] end]
   | SProv p l =>
